@@ -42,6 +42,7 @@ type Ctx struct {
 	// the rule around the call; never for rules about what an error path
 	// itself must do)
 	refusalOK bool
+	setOnce   map[*types.Var]bool
 	wrapCache map[string][]wrapper
 }
 
